@@ -319,17 +319,27 @@ def r_fresh(ctx):
     call = [c for c in ast.walk(entry) if isinstance(c, ast.Call) and call_name(c) == root.name][0]
     warg = get_arg(call, 0, params_of(root)[1])
     ok, msg = False, "wrapper argument of %s not resolved" % root.name
-    if isinstance(warg, ast.Name):
-        defs = [s for s in flow.stmts_of(entry, ast.Assign) if any(isinstance(t, ast.Name) and t.id == warg.id for t in s.targets)]
-        ctor = [s for s in defs if isinstance(s.value, ast.Call) and isinstance(s.value.func, ast.Subscript)
-                and dotted(s.value.func.value) == "WRAPPERS"]
+    wtxt = dotted(warg) if warg is not None else None
+    if wtxt:
+        def is_ctor(v, depth=0):
+            if isinstance(v, ast.Call) and isinstance(v.func, ast.Subscript) and dotted(v.func.value) == "WRAPPERS":
+                return True
+            if isinstance(v, ast.Name) and depth < 3:
+                ds = [s0 for s0 in flow.stmts_of(entry, ast.Assign) if dotted(s0.targets[0]) == v.id]
+                return bool(ds) and all(is_ctor(d.value, depth + 1) for d in ds)
+            return False
+        defs = [s0 for s0 in flow.stmts_of(entry, ast.Assign) if any(dotted(t) == wtxt for t in s0.targets)]
+        nonctor = [s0 for s0 in defs if not is_ctor(s0.value)]
+        # on every path that reaches the call of the solve root, a constructor definition has been executed
         cst = common.stmt_of(call)
-        dom = [s for s in ctor if flow.dominates(s, cst)]
-        nonctor = [s for s in defs if s not in ctor]
-        ok = bool(dom) and not nonctor
+        pc = flow.path_counts(entry.body, lambda n: False, lambda st: st in defs and is_ctor(st.value))
+        reach = set()
+        for kind in ("next", "return"):
+            reach |= pc.get(kind, set())
+        ok = bool(defs) and not nonctor and bool(reach) and 0 not in reach
         msg = ("a new wrapper is constructed on every call before the solve root runs" if ok else
                "the wrapper handed to the solve root is not constructed on every path of this call (definitions: %s)"
-               % [norm_stmt(s)[:60] for s in defs])
+               % [norm_stmt(s0)[:60] for s0 in defs])
     ctx.ob("R-FRESH", "PEP.%s::new-wrapper-per-solve" % entry.name, ok, msg, loc(entry, call))
     # 2. tracking lists and objective leaf are rebound before the first send
     ctx.unit(qualname(root))
